@@ -196,6 +196,9 @@ loop:
 					changed = true
 				}
 			}
+			if rc.apiRoots == len(p.Roots) {
+				changed = true
+			}
 			if changed {
 				lastChange = time.Now()
 			} else if time.Since(lastChange) > 6*time.Second {
